@@ -9,7 +9,8 @@
     lifter supplies the fall-through when none was set, before the block is added to the graph
  R3 edges: IRCFG.add_irblock adds an edge for every location / constant leaf of the tracked destination,
     and the tracking splits conditional choices into both arms
- ("every referenced register belongs to the architecture" is not decided)
+ R4 (x86) every assignment of a block is rewritten to the registers of the lifter's mode, destination pointer included, before
+    the block enters the graph ("every referenced register belongs to the architecture" is decided for this rewriting step only)
 """
 import ast
 
@@ -30,6 +31,7 @@ def run(ck):
     ck.rule("R1", "AssignBlock._assigns has one guarded writer; widths equal and destination ExprId/ExprMem on every path to it", floor=8)
     ck.rule("R2", "a second IRDst in a block is refused; a missing one is completed before the block enters the graph", floor=5)
     ck.rule("R3", "an edge is added for every location/constant leaf of the tracked destination", floor=3)
+    _mode_register_rules(ck)
 
     # ---------------------------------------------------------------- R1
     writers = {}
@@ -175,3 +177,71 @@ def run(ck):
             t = norm(ast.Module(body=n.body, type_ignores=[]))
             ok = "todo.add(dst.src1)" in t and "todo.add(dst.src2)" in t
     ck.ob("R3", "IRCFG._extract_dst:both-arms", ok, m.where(fn), "a conditional destination is not split into both arms")
+
+
+def _mode_register_rules(ck):
+    """R4 (x86): registers foreign to the lifter's mode are rewritten everywhere. Every block added to the graph by
+    add_asmblock_to_ircfg goes through irbloc_fix_regs_for_mode; there, both the destination and the source of EVERY assignment
+    are stored only after a full-expression rewrite (expr_fix_regs_for_mode = replace_expr over the mode's table): a table lookup on
+    the destination alone leaves foreign registers inside the pointer of a memory destination."""
+    from sa.pathob import undischarged, path_text
+    X86 = "miasm/arch/x86/sem.py"
+    ck.rule("R4", "every assignment of an x86 IR block has destination and source fully rewritten to the mode's registers before it is stored", floor=4)
+    m = ck.repo.mod(IR)
+    post = m.func("Lifter.post_add_asmblock_to_ircfg")
+    cfg = CFG(post)
+    adds = [nd for nd in cfg.nodes if any(dotted(c.func) == "ircfg.add_irblock" for c in node_calls(nd))]
+    ck.need(adds, "Lifter.post_add_asmblock_to_ircfg: ircfg.add_irblock call not found")
+    for nd in adds:
+        c = [c for c in node_calls(nd) if dotted(c.func) == "ircfg.add_irblock"][0]
+        arg = norm(c.args[0])
+        fixed = lambda n2: n2.kind == "stmt" and isinstance(n2.ast, ast.Assign) and norm(n2.ast.targets[0]) == arg and isinstance(n2.ast.value, ast.Call) \
+            and dotted(n2.ast.value.func) == "self.irbloc_fix_regs_for_mode" and len(n2.ast.value.args) >= 2 and norm(n2.ast.value.args[1]) == "self.attrib"
+        inline = isinstance(c.args[0], ast.Call) and dotted(c.args[0].func) == "self.irbloc_fix_regs_for_mode"
+        p = None if inline else undischarged(cfg, fixed, targets=[nd.id])
+        ck.ob("R4", "Lifter.post_add_asmblock_to_ircfg:block-fixed-before-add", p is None, m.where(nd.ast),
+              "a block reaches ircfg.add_irblock without irbloc_fix_regs_for_mode(block, self.attrib): %s" % (path_text(p) if p else ""))
+    xm = ck.repo.mod(X86)
+    ef = xm.func("Lifter_X86_16.expr_fix_regs_for_mode")
+    ep = [a.arg for a in ef.args.args]
+    ok = any(isinstance(n, ast.Return) and n.value is not None and norm(n.value) == "%s.replace_expr(replace_regs[%s])" % (ep[1], ep[2]) for n in walk_body(ef))
+    ck.ob("R4", "Lifter_X86_16.expr_fix_regs_for_mode:full-rewrite", ok, xm.where(ef),
+          "expr_fix_regs_for_mode is no longer a replace_expr of the whole expression over replace_regs[mode]")
+    f = xm.func("Lifter_X86_16.irbloc_fix_regs_for_mode")
+    mode = f.args.args[2].arg
+    cfg = CFG(f)
+    stores = [nd for nd in cfg.nodes if nd.kind == "stmt" and isinstance(nd.ast, ast.Assign) and isinstance(nd.ast.targets[0], ast.Subscript)
+              and not isinstance(nd.ast.targets[0].slice, ast.Slice)]
+    ck.need(stores, "irbloc_fix_regs_for_mode: store into the new assignment map not found")
+    loops = [nd for nd in cfg.nodes if nd.kind == "for" and isinstance(nd.ast.target, ast.Tuple)]
+    ck.need(loops, "irbloc_fix_regs_for_mode: loop over the assignments not found")
+    for st in stores:
+        for role, e in (("destination", st.ast.targets[0].slice), ("source", st.ast.value)):
+            if isinstance(e, ast.Call) and dotted(e.func) == "self.expr_fix_regs_for_mode" and norm(e.args[1]) == mode:
+                ck.ob("R4", "irbloc_fix_regs_for_mode:%s-rewritten" % role, True, xm.where(st.ast), "")
+                continue
+            if not isinstance(e, ast.Name):
+                ck.ob("R4", "irbloc_fix_regs_for_mode:%s-rewritten" % role, False, xm.where(st.ast),
+                      "the %s stored is `%s`, not the result of expr_fix_regs_for_mode" % (role, norm(e)[:50]))
+                continue
+            v = e.id
+
+            def is_fix(n2, v=v):
+                a = n2.ast
+                return n2.kind == "stmt" and isinstance(a, ast.Assign) and norm(a.targets[0]) == v and isinstance(a.value, ast.Call) \
+                    and dotted(a.value.func) == "self.expr_fix_regs_for_mode" and len(a.value.args) >= 2 and norm(a.value.args[1]) == mode
+
+            def redefines(n2, v=v):
+                return n2.kind == "stmt" and isinstance(n2.ast, (ast.Assign, ast.AugAssign)) and any(
+                    isinstance(t, ast.Name) and t.id == v for t in assigned_targets(n2.ast)) and not is_fix(n2)
+            # (1) every path from the loop head to the store passes the rewrite; (2) no redefinition between the rewrite and the store
+            p1 = undischarged(cfg, is_fix, start=loops[-1].id, targets=[st.id])
+            fixes = [n2 for n2 in cfg.nodes if is_fix(n2)]
+            p2 = None
+            for fx in fixes:
+                for r2 in [n2 for n2 in cfg.nodes if redefines(n2)]:
+                    if cfg.can_reach(fx.id, r2.id, avoid=lambda n3: n3.kind == "for") and cfg.can_reach(r2.id, st.id, avoid=lambda n3: n3.kind == "for" or is_fix(n3)):
+                        p2 = r2
+            ck.ob("R4", "irbloc_fix_regs_for_mode:%s-rewritten" % role, p1 is None and p2 is None, xm.where(st.ast),
+                  "the %s of an assignment can be stored without the full rewrite to the mode's registers: %s - e.g. a 0x67-prefixed store "
+                  "keeps EAX / BX inside its pointer in 64 / 32-bit mode" % (role, path_text(p1) if p1 else ("redefined at %s after the rewrite" % xm.where(p2.ast) if p2 else "")))
